@@ -368,6 +368,12 @@ func (t *transitiveClosure) includeType(
 			if mode := t.elements[extendeeInfo.element]; mode == inclusionModeExcluded {
 				return fmt.Errorf("cannot include extension field %q as the extendee type %q is excluded", typeName, extendeeName)
 			}
+			// Likewise, check if the value type is excluded: the extension would be dropped.
+			if valueTypeName := protoreflect.FullName(strings.TrimPrefix(field.GetTypeName(), ".")); valueTypeName != "" {
+				if valueTypeInfo, ok := imageIndex.ByName[valueTypeName]; ok && t.elements[valueTypeInfo.element] == inclusionModeExcluded {
+					return fmt.Errorf("cannot include extension field %q as the value type %q is excluded", typeName, valueTypeName)
+				}
+			}
 		}
 		if err := t.addElement(descriptorInfo.element, "", false, imageIndex, options); err != nil {
 			return fmt.Errorf("inclusion of type %q: %w", typeName, err)
